@@ -11,7 +11,7 @@ From Texel Require Import Chess.Types Chess.Position Chess.PositionSpec Chess.Po
   Chess.MoveGenProofs
   Chess.BitBoard Chess.MoveGen Chess.MoveGenWF Chess.Fen Chess.Spec
   RevGen.RevGen RevGen.RevFacts RevGen.RevAbs RevGen.RevRestore RevGen.RevValid RevGen.RevCand RevGen.RevRaw
-  RevGen.RevLegal RevGen.RevTheorems RevGen.RevSpec RevGen.RevPremise RevGen.RevPawn RevGen.RevCastle RevGen.RevComplete RevGen.RevCons.
+  RevGen.RevLegal RevGen.RevTheorems RevGen.RevSpec RevGen.RevPremise RevGen.RevPawn RevGen.RevCastle RevGen.RevComplete RevGen.RevCons RevGen.RevNoDup RevGen.RevSlide.
 Import ListNotations.
 Local Open Scope N_scope.
 
@@ -217,6 +217,20 @@ Theorem C15_consistent_knight_king : forall zk q, Consistent zk q -> WF q -> for
 Proof. exact legal_knight_king. Qed.
 Print Assumptions C15_consistent_knight_king.
 
+(** C15_consistent_statement for every un-move of a piece other than a pawn that is neither an un-promotion nor
+    an un-castling (queen, rook, bishop, knight, king): the move is legal in the restored position by the FIDE
+    rules and leads back to Q; the restored position satisfies the representation invariant *)
+Theorem C15_consistent_nonpawn : forall zk q, Consistent zk q -> WF q -> forall incl um,
+  In um (genMoves zk q incl) ->
+  mpromote (um_move um) = EMPTY ->
+  isPawnPiece (nthP (squares q) (mto (um_move um))) = false ->
+  (isKingPiece (nthP (squares q) (mto (um_move um))) = true ->
+   mto (um_move um) <> mfrom (um_move um) + 2 /\ mto (um_move um) + 2 <> mfrom (um_move um)) ->
+  let prev := unMakeMove zk q (um_move um) (um_ui um) in
+  Consistent zk prev /\ legal_spec (abs prev) (um_move um) /\ abs (successor zk prev (um_move um)) = abs q.
+Proof. exact consistent_nonpawn. Qed.
+Print Assumptions C15_consistent_nonpawn.
+
 (** the shape of the raw reverse moves of genMovesNoUndoInfo that are not pawn un-moves or un-promotions *)
 Theorem C15_raw_piece_shape : forall q, BoardOK q ->
   (exists s, s < 64 /\ getPiece q s = mk_piece (negb (whiteMove q)) King) ->
@@ -224,6 +238,16 @@ Theorem C15_raw_piece_shape : forall q, BoardOK q ->
 Proof. exact raw_piece_shape. Qed.
 Print Assumptions C15_raw_piece_shape.
 
-(** * NoDup: statement only (duplicates are looked for in every list of the correspondence run) *)
+(** * NoDup: the list of un-moves has no duplicates.  The seven blocks of genMovesNoUndoInfo differ in the
+    piece on the target square (un-promotions in the promotion piece), the moves of one block in target or
+    origin square; the UndoInfo alternatives of one move differ in captured piece, castle mask or e.p. square *)
 Definition C15_nodup_statement : Prop :=
   forall zk q incl, Consistent zk q -> WF q -> NoDup (genMoves zk q incl).
+Theorem C15_nodup : C15_nodup_statement.
+Proof. exact (fun zk q incl _ Hwf => genMoves_NoDup zk q incl Hwf). Qed.
+Print Assumptions C15_nodup.
+
+(** the raw reverse move list of a well-formed position has no duplicates *)
+Theorem C15_nodup_raw : forall q, WF q -> NoDup (revMoveList q).
+Proof. exact revMoveList_NoDup. Qed.
+Print Assumptions C15_nodup_raw.
